@@ -86,7 +86,7 @@ Section RestraintMachine.
   Qed.
 
   Theorem restraint_resumable :
-    resumable (restraint_machine O) r_ok (r_inv O) r_eqv r_out_eq0 r_out_eq.
+    resumable (restraint_machine O) r_ok (r_inv O) r_eqv r_out_eq0 r_out_eq eq.
   Proof.
     constructor; cbn [m_init m_step m_save m_after_save m_load restraint_machine].
     - intros c _. apply r_inv_init_l.
